@@ -39,21 +39,6 @@ Definition check_out_chunk (vrl num den : Z) : res Z :=
 Definition run_output (cap : Z) (disk0 sul : bytes) (vrs : list bytes) : ostate :=
   flush (fold_left (add_bytes cap) vrs (write_bytes (o_init disk0) sul)).
 
-(* make_chunked_generator: the (start, stop) row ranges that are loaded, for n rows *)
-Fixpoint full_chunks (k : nat) (i c : Z) : list (Z * Z) :=
-  match k with O => [] | S k' => (i * c, (i + 1) * c) :: full_chunks k' (i + 1) c end.
-
-Definition chunk_ranges (n : Z) (chunk : option Z) : list (Z * Z) :=
-  match chunk with
-  | None => [(0, n)]
-  | Some c =>
-      let q := n / c in let r := n mod c in
-      full_chunks (Z.to_nat q) 0 c ++ (if 0 <? r then [(q * c, n)] else [])
-  end.
-
-(* rows produced by iterating the generator over `rows` *)
-Definition chunked {A} (rows : list A) (chunk : option Z) : list A :=
-  concat (map (fun '(a, b) => slice a b rows) (chunk_ranges (zlen rows) chunk)).
 
 (* DLISWriter end to end: label, records, buffered output with the given (already validated) buffer size *)
 Definition write_buffered (c : sulcfg) (recs : list lrec) (cap : Z) (disk0 : bytes) : res ostate :=
